@@ -8,6 +8,7 @@ import Driver.C19
 import Driver.Engine
 import Driver.Client
 import Driver.C14
+import Driver.C06
 /-!
 Line-protocol driver: one request per line on stdin, one answer per line on stdout.
 Only model files are imported (no proofs, no Mathlib), so this links as a native executable.
@@ -37,6 +38,7 @@ def dispatch (line : String) : String :=
     | "ka" => cmdKa args
     | "lease" => cmdLease args
     | "announce" => cmdAnnounce args
+    | "credit" => cmdCredit args
     | _ => "bad-op"
 
 partial def loop (h : IO.FS.Stream) (out : IO.FS.Stream) : IO Unit := do
